@@ -18,6 +18,7 @@ import (
 	"math/rand"
 	"path/filepath"
 	"sort"
+	"strings"
 
 	_ "github.com/blevesearch/bleve/v2/analysis/analyzer/standard"
 	"github.com/blevesearch/bleve/v2/registry"
@@ -761,7 +762,9 @@ func termsOf(s string) [][]int {
 
 var vocab = []string{"semadb", "tests", "test", "ts", "st", "ss", "tt", "sts", "tst", "dddddddd", "d", "dog", "toys", "tips", "s3", "t1000", "_numDocuments",
 	"numdocuments", "café", "naïve", "日本語", "straße", "x", "zz", "tots", "this", "the", "trees", "vector", "search", "graph", "0", "42", "1e9",
-	"supercalifragilisticexpialidocious", "a-b", "it's", "t's", "vectors", "toolbox"}
+	"supercalifragilisticexpialidocious", "a-b", "it's", "t's", "vectors", "toolbox",
+	// unbroken runs longer than any "reasonable" key bound, telling each other apart only at the far end
+	strings.Repeat("x", 254), strings.Repeat("x", 255) + "a", strings.Repeat("x", 255) + "b", strings.Repeat("x", 256) + "a", strings.Repeat("q", 1000) + "1", strings.Repeat("q", 1000) + "2"}
 
 // the document id whose key would spell the key of a 7-letter term if the two
 // key kinds were told apart by nothing but their first byte
